@@ -5,12 +5,12 @@ WT=/tmp/seed/$id; OUT=/tmp/seed/$id.out
 export GOFLAGS=-mod=mod GOPROXY=off; unset GOWORK
 cd $WT && git checkout -q -- . && git clean -fdq
 cp $OUT/$demo $dir/
-echo "--- clean tree demo:"; go test -vet=off -count=1 -run "$rx" ./$dir/ 2>&1 | tail -3; r_clean=${PIPESTATUS[0]}
+echo "--- clean tree demo:"; go test -vet=off -count=1 -timeout 300s -run "$rx" ./$dir/ 2>&1 | tail -3; r_clean=${PIPESTATUS[0]}
 git apply $OUT/patch.diff || { echo APPLY-FAILED; exit 1; }
 echo "--- build:"; go build ./... && echo build-ok
 rm $dir/$demo
-echo "--- existing tests with change:"; go test -vet=off -count=1 ./... 2>&1 | grep -v "no test files" | awk '{print $1, $2}' | tr '\n' ';'; echo
+echo "--- existing tests with change:"; go test -vet=off -count=1 -timeout 600s ./... 2>&1 | grep -v "no test files" | awk '{print $1, $2}' | tr '\n' ';'; echo
 cp $OUT/$demo $dir/
-echo "--- patched demo:"; go test -vet=off -count=1 -run "$rx" ./$dir/ 2>&1 | tail -4; r_bad=${PIPESTATUS[0]}
+echo "--- patched demo:"; go test -vet=off -count=1 -timeout 300s -run "$rx" ./$dir/ 2>&1 | tail -4; r_bad=${PIPESTATUS[0]}
 rm $dir/$demo; git checkout -q -- .
 echo "RESULT $id clean_exit=$r_clean patched_exit=$r_bad"
